@@ -68,6 +68,9 @@ def run_rules(pid, overrides):
     chk = Checker(pid, quiet=True)
     try:
         ctx = Ctx(overrides=overrides)
+        import sa.interp as _ip
+        del _ip.OPAQUE[:]
+        del _ip.UNSUPPORTED[:]
         mod.run(ctx, chk)
         rc = chk.finish(write=False)
     except AnalysisError as e:
